@@ -439,6 +439,16 @@ func casterMisuseSeq(h *hctx, pre []int, bad int) {
 	case valid && (r.panicked || r.ret != 0):
 		h.line("MONITOR C08 Send on an empty caster: panicked=%v ret=%d (sequence %s)", r.panicked, r.ret, casterSeqString(calls))
 	}
+	if !valid {
+		// a panicking Send must not keep anything locked: whatever later calls do on the invalid word (the property wants a
+		// panic), they must not block ("neither call can block forever"); `do` reports a call that is still blocked after 2 s
+		for _, c := range []casterCall{{send: true}, {delta: 1}, {delta: 0}, {send: true}} {
+			if _, ok = do(c); !ok {
+				return
+			}
+		}
+		h.count("misuse_calls_after_panicking_send", 4)
+	}
 	h.count("misuse_tails", 1)
 }
 
